@@ -114,6 +114,40 @@ func (r *objectSetRemotePhaseReconciler) Teardown(
 	return false, nil
 }
 
+// Observe reports an already existing ObjectSetPhase as part of this ObjectSet without touching it.
+// It is used for phases that the rollout does not reach in a reconcile, so that the
+// ObjectSetPhase stays listed in .status.remotePhases, where next revisions look for it.
+func (r *objectSetRemotePhaseReconciler) Observe(
+	ctx context.Context, objectSet adapters.ObjectSetAccessor,
+	phase corev1alpha1.ObjectSetTemplatePhase,
+) error {
+	if len(phase.Class) == 0 {
+		return nil
+	}
+
+	objectSetPhase := r.newObjectSetPhase(r.scheme)
+	err := r.client.Get(ctx, client.ObjectKey{
+		Name:      objectSetPhaseName(objectSet, phase),
+		Namespace: objectSet.ClientObject().GetNamespace(),
+	}, objectSetPhase.ClientObject())
+	if errors.IsNotFound(err) {
+		return nil
+	}
+	if err != nil {
+		return fmt.Errorf("getting existing ObjectSetPhase: %w", err)
+	}
+	if !metav1.IsControlledBy(objectSetPhase.ClientObject(), objectSet.ClientObject()) {
+		return nil
+	}
+
+	objectSet.SetRemotePhases(addRemoteObjectSetPhase(
+		objectSet.GetRemotePhases(), corev1alpha1.RemotePhaseReference{
+			Name: objectSetPhase.ClientObject().GetName(),
+			UID:  objectSetPhase.ClientObject().GetUID(),
+		}))
+	return nil
+}
+
 func (r *objectSetRemotePhaseReconciler) Reconcile(
 	ctx context.Context, objectSet adapters.ObjectSetAccessor,
 	phase corev1alpha1.ObjectSetTemplatePhase,
